@@ -311,6 +311,11 @@ def to_trace(sess):
             vals.update(float(v) for v in e["dist"])
             vals.update(float(v) for v in e["tolerances"])
             vals.add(float(e["finaltol"]))
+    # the tolerance list the user supplied (list mode; empty otherwise)
+    user_list = []
+    if sess.get("calls") and sess["calls"][0][0] == "get" and hasattr(sess["calls"][0][1], "__len__"):
+        user_list = [float(v) for v in sess["calls"][0][1]]
+        vals.update(user_list)
     order = sorted(v for v in vals if not math.isnan(v))
     rank = {v: k for k, v in enumerate(order)}
     rk = lambda v: rank[float(v)] if not math.isnan(float(v)) else len(order) + 1
@@ -368,4 +373,5 @@ def to_trace(sess):
             events.append({"ev": "Final", "parts": parts, "finaltol": rk(e["finaltol"])})
             detail.append({"parts": dparts, "finaltol": e["finaltol"], "tolerances": [float(v) for v in e["tolerances"]]})
             cur_gen = None
-    return {"N": cfg["N"], "maxgen": max(cfg["G"], 2), "maxrank": len(order) + 2, "mode": cfg["mode"], "events": events}, detail
+    return {"N": cfg["N"], "maxgen": max(cfg["G"], 2), "maxrank": len(order) + 2, "mode": cfg["mode"], "events": events,
+            "tollist": [rk(v) for v in user_list]}, detail
